@@ -281,8 +281,8 @@ func c03Check(w *lib.Worker, c c03case, viaRule bool) {
 			want := bMultiset(exp)
 			if strings.Join(got, "\n") != strings.Join(want, "\n") {
 				w.Violation(lib.Violation{Scenario: "query", Signature: c03Classify(c.Query, want, got),
-					Summary:  fmt.Sprintf("[%s] Query(%s) = %v; semantics give %v", cfg, qtxt, got, want),
-					Replay:   c, Expected: want, Observed: got})
+					Summary: fmt.Sprintf("[%s] Query(%s) = %v; semantics give %v", cfg, qtxt, got, want),
+					Replay:  c, Expected: want, Observed: got})
 			} else if len(want) > 0 {
 				w.Nontrivial(cfg + "|" + qtxt + "|" + strings.Join(want, ","))
 			}
@@ -337,8 +337,8 @@ func c03Check(w *lib.Worker, c c03case, viaRule bool) {
 		want := bMultiset(exp)
 		if strings.Join(got, "\n") != strings.Join(want, "\n") {
 			w.Violation(lib.Violation{Scenario: "condition", Signature: "C03/condition-" + strings.TrimPrefix(c03Classify(c.Query, want, got), "C03/"),
-				Summary:  fmt.Sprintf("[%s] rule condition %s gave action bindings %v; semantics give %v", cfg, qtxt, got, want),
-				Replay:   c, Expected: want, Observed: got})
+				Summary: fmt.Sprintf("[%s] rule condition %s gave action bindings %v; semantics give %v", cfg, qtxt, got, want),
+				Replay:  c, Expected: want, Observed: got})
 		}
 	}
 }
